@@ -28,13 +28,15 @@ CURRENT = []
 
 class VLoop(Loop):
     """The real Loop, observed. Installed as ``usim._Loop`` (the global read by ``usim.run``)."""
-    __slots__ = ('ctx', 'queued', 'uid')
+    __slots__ = ('ctx', 'queued', 'uid', 'cur', 'cur_deque')
 
     def __init__(self, *coroutines, start=0):
         super().__init__(*coroutines, start=start)
         self.ctx = ctx = CURRENT[-1] if CURRENT else None
         # FIFO/clock monitor: per time key the (target, signal) pairs in queueing order
         self.queued = {start: [(c, None) for c in coroutines]}
+        self.cur = []            # entries of the deque that is being drained right now
+        self.cur_deque = None
         self.uid = 0
         if ctx is not None:
             self.uid = ctx.register_loop(self)
@@ -44,11 +46,11 @@ class VLoop(Loop):
         if self.ctx is not None:
             if delay is None and at is None:
                 key = self.time
-            elif delay is not None:
-                key = self.time + delay
+                self.cur.append((target, signal))       # joins the deque that is being drained
             else:
-                key = at
-            self.queued.setdefault(key, []).append((target, signal))
+                # a dated activation goes to the wait queue - also if rounding makes its date equal to now
+                key = self.time + delay if delay is not None else at
+                self.queued.setdefault(key, []).append((target, signal))
             self.ctx.on_schedule(self, key, target, signal)
 
     def _run_coroutine(self, target, signal=None):
@@ -158,9 +160,17 @@ class Ctx:
             raise Runaway('livelock', 'more than %d activations at time %r' % (self.step_limit, now))
         if self.nact > self.total_limit:
             raise Runaway('runaway', 'more than %d activations' % self.total_limit)
-        # FIFO monitor: this activation must be the oldest non-revoked entry queued for `now`
-        entries = loop.queued.get(now)
+        # FIFO monitor: this activation must be the oldest non-revoked entry of the deque being drained
+        if loop._pending is not loop.cur_deque:
+            # the loop popped the next deque from its wait queue
+            left = [(self.name_of(t), sigkind(s)) for t, s in loop.cur if s is None or not s._revoked]
+            if left:
+                self.findings.append(('work-skipped', (now, left)))
+            loop.cur_deque = loop._pending
+            loop.cur = loop.queued.pop(now, None)
+        entries = loop.cur
         if entries is None:
+            loop.cur = []
             self.findings.append(('unqueued-activation', (now, self.name_of(target), sigkind(signal))))
         else:
             while entries:
